@@ -65,6 +65,10 @@ def check_array(arr, env: Env) -> str | None:
     sp = env.spec
     if not isinstance(arr, np.ndarray):
         return f"numpy() returned {type(arr).__name__}"
+    if arr.dtype != sp.np_dtype and arr.dtype.newbyteorder("=") == sp.np_dtype:
+        # same element type stored in the other byte order: the statement speaks about element values,
+        # not about the memory order of the returned array -> compare the values
+        arr = arr.astype(sp.np_dtype)
     if arr.dtype != sp.np_dtype:
         return f"array dtype {arr.dtype} != {sp.np_dtype}"
     if tuple(arr.shape) != env.shape:
@@ -248,8 +252,20 @@ def _evaluate(env: Env, rep, counts: Counter, dests, phases) -> dict[str, str]:
     exp = env.exp_bytes
     fails: dict[str, str] = {}
     make = rep.build(env)                      # harness side: arrays, files, protos
+    for k, v in env.stats.items():
+        counts[k] += v
+    env.stats.clear()
     ok, t = _call(make)
     counts["obs_construct"] += 1
+    if rep.extra.get("may_refuse"):
+        counts["nonnative_byte_order_constructions"] += 1
+    if not ok and rep.extra.get("may_refuse"):
+        # the input is one the constructor may legitimately refuse: nothing was built, nothing can disagree
+        counts["refused_by_constructor"] += 1
+        counts[f"refused_by_constructor:{rep.sig}:{exc_id(t)}"] += 1
+        return fails
+    if rep.extra.get("may_refuse"):
+        counts[f"accepted_by_constructor:{rep.sig}"] += 1
     if not ok:
         fails[f"construct-raises:{exc_id(t)}"] = f"{t}"[:300]
         return fails
